@@ -3,6 +3,7 @@ package riscv
 import (
 	"fmt"
 	"mltwist/internal/opcode"
+	"mltwist/pkg/expr"
 	"mltwist/pkg/model"
 )
 
@@ -47,6 +48,9 @@ const (
 // of extensions.
 type Parser struct {
 	matcher *opcode.Matcher[*instructionType]
+	// xlen is width of general purpose registers of the architecture
+	// variant parsed.
+	xlen expr.Width
 }
 
 // NewParser creates a new RISC-V instruction parser parsing RISC-V architecture
@@ -66,8 +70,14 @@ func NewParser(v Variant, exts ...Extension) Parser {
 		panic(fmt.Sprintf("bug: matcher creation failed: %s", err.Error()))
 	}
 
+	xlen := width32
+	if v == Variant64 {
+		xlen = width64
+	}
+
 	return Parser{
 		matcher: decoder,
+		xlen:    xlen,
 	}
 }
 
@@ -121,6 +131,7 @@ func (p Parser) Parse(a model.Addr, bs []byte) (model.Instruction, error) {
 	}
 
 	instr := newInstruction(a, bs, opcode)
+	instr.xlen = p.xlen
 	return model.Instruction{
 		Type:    opcode.instrType,
 		ByteLen: instructionLen,
